@@ -28,28 +28,29 @@ structure BR where
   nextId : Nat := 0           -- ghost: next allocation identity
   deriving DecidableEq, Repr
 
+/-- the buffer part of `append`: fill the spare capacity of the last buffer (`copy((*pbuf)[l:], data)` after growing
+    its length), put what remains into one new buffer of capacity `len + extra`. Written by recursion on the buffer list
+    (the Go code indexes the last element). `data ≠ []`. -/
+def appendBufs : List Buf → Bytes → Nat → Nat → List Buf × List AllocEv
+  | [], data, extra, id => ([⟨id, data, data.length + extra⟩], [.malloc id data.length (data.length + extra)])
+  | [last], data, extra, id =>
+    let n := min (last.cap - last.data.length) data.length
+    let last' := { last with data := last.data ++ data.take n }
+    let rest := data.drop n
+    if rest = [] then ([last'], [])
+    else ([last', ⟨id, rest, rest.length + extra⟩], [.malloc id rest.length (rest.length + extra)])
+  | b :: b' :: bs, data, extra, id =>
+    let r := appendBufs (b' :: bs) data extra id
+    (b :: r.1, r.2)
+
 /-- `BodyReader.append(data)`; the (at most one) buffer this call allocates gets capacity `len + extra`, `extra` being
     the allocator's choice. `none` = `ErrTooLong`. -/
 def append (maxBody : Nat) (br : BR) (data : Bytes) (extra : Nat) : Option (BR × List AllocEv) :=
   if data = [] then some (br, [])
   else if maxBody > 0 ∧ data.length + br.left > maxBody then none
   else
-    let br := { br with left := br.left + data.length }
-    match br.buffers.getLast? with
-    | none =>
-      let c := data.length + extra
-      some ({ br with buffers := [⟨br.nextId, data, c⟩], nextId := br.nextId + 1 }, [.malloc br.nextId data.length c])
-    | some last =>
-      let spare := last.cap - last.data.length
-      let n := min spare data.length                     -- `copy((*pbuf)[l:], data)` after growing the length
-      let last' := { last with data := last.data ++ data.take n }
-      let bufs := br.buffers.dropLast ++ [last']
-      let rest := data.drop n
-      if rest = [] then some ({ br with buffers := bufs }, [])
-      else
-        let c := rest.length + extra
-        some ({ br with buffers := bufs ++ [⟨br.nextId, rest, c⟩], nextId := br.nextId + 1 },
-              [.malloc br.nextId rest.length c])
+    let r := appendBufs br.buffers data extra br.nextId
+    some ({ br with left := br.left + data.length, buffers := r.1, nextId := br.nextId + r.2.length }, r.2)
 
 /-- the `for ncopy < need && br.left > 0` loop of `Read`; fuel makes it structurally recursive
     (`readLoop_fuel`: it never runs out). Result: reader, bytes copied, `io.EOF`?, allocator traffic. -/
